@@ -654,6 +654,28 @@ class Interp:
             done = self.dispatch(op, kind)
         except HarnessError:
             raise
+        except seams.ProcessKilled:
+            # hard kill: the process is gone, nothing was cleaned up; a new process
+            # (same disk) carries on.  The archive must be complete: the last committed
+            # content, or - if the kill hit close() after its commit point - the new one.
+            sess = self.model.sess
+            self.sm.dead = False
+            self.eko = None
+            self.model.sess = None
+            self.probes["sessions_killed"] = self.probes.get("sessions_killed", 0) + 1
+            with self.sm.paused():
+                st = archive.logical_or_state(str(self.path), os.path.exists)
+            if st != self.committed:
+                if st[0] == "ok" and kind == "close" and sess is not None and sess["mode"] == "rw":
+                    # committed just before dying: adopt; later reads verify the content
+                    self.model.disk = dict(sess["working"])
+                    self.model.disk_extra = dict(meta=dict(sess["meta"]), parts=dict(sess["parts"]), recipes=set(sess["recipes"]))
+                    self.committed = st
+                    self.probes["kills_after_commit"] = self.probes.get("kills_after_commit", 0) + 1
+                else:
+                    self.check_committed(op, f"after the process was killed during {kind}")
+            self.note(op["id"], kind, "killed", len(self.viol))
+            return None
         except Exception as e:  # create / low-level paths that the fault-free interpreter never sees raising
             done, exc = True, e
         fired = len(self.sm.faults_fired) > n0
@@ -1151,6 +1173,9 @@ def _run_history(case, root, faults=None):
             it.states |= {"b:" + x for x in other.states}
             it.obs.update(other.obs.hexdigest().encode())
             it.probes["second_eko_ops"] = other.executed
+            for k, v in other.probes.items():
+                if isinstance(v, int) and k != "second_eko_ops":
+                    it.probes[k] = it.probes.get(k, 0) + v
     return it, tr, sm
 
 
@@ -1181,6 +1206,8 @@ def choose_faults(case, events):
         ev = pool.pop(i)
         weights.pop(i)
         f = fs_fault_for(d, ev)
+        if d.chance("kill", 0.25):
+            f = dict(type="fs", op=ev[1], local=ev[2], kind="kill", site=f["site"])
         f["in_op"] = kinds.get(ev[1])
         out.append(f)
     return out
